@@ -20,7 +20,8 @@ class C16(Prop):
                   "functions and the model on ~270k identical case lines per run incl. all 1-/2-byte strings), bytes crate")
     rule = ("cases: exhaustive 1- and 2-byte strings, values 0..2^16, +-2 around every form boundary, every "
             "truncation of every form, seeded random 62/64-bit values, stream-id kinds x boundary indices x "
-            "increments; non-trivial = a case whose implementation result is not `bad-op`/`refused` and whose "
+            "increments; `wv` write_var judged against the shortest RFC 9000 form for every value below 2^62 (no opinion on the "
+            "unwrap beyond); `tfu` TryFrom<usize> for VarInt at the edges of every form, of the range and of usize; non-trivial = a case whose implementation result is not `bad-op`/`refused` and whose "
             "input is not the empty string; distinct = distinct case lines")
     trusted = ["bytes::Buf/BufMut get_u8/copy_to_slice/put_u16/u32/u64 semantics (exercised by the correspondence run)"]
     assumptions = ["usize is 64 bits (rhs as u64 is lossless)"]
@@ -73,6 +74,9 @@ class C16(Prop):
             L.append("varint enc %d" % v)
         for v in sorted(vals)[::7] + [2**62 - 1, 2**62, U64]:
             L.append("varint wv %d" % v)
+        # TryFrom<usize> for VarInt: the edges of every form, of the range, of usize, and a sample of the values
+        for v in sorted(vals)[::11] + [2**p + d for p in (6, 14, 30, 62, 63) for d in (-1, 0, 1)] + [0, U64 - 1, U64]:
+            L.append("varint tfu %d" % v)
         for b in range(256):
             L.append("varint esz %d" % b)
         # random 8-byte and 4-byte encodings (non-minimal included)
